@@ -292,3 +292,39 @@ def _compensated(ct, tier, seed):
 
 contract('C15.runtime.compensated', [TS + ':SensitivityAnalysis.run', TM + ':MonteCarlo.run', TC + ':Tolerancing.apply_compensators',
                                      'optiland/tolerancing/compensator.py:CompensatorOptimizer.run'], ['C15'], custom=_compensated)(lambda c: None)
+
+
+def _seeded(ct, tier, seed):
+    """bounded: a sampler built with a seed -- any integer, 0 included -- makes the sample sequence (and a Monte-Carlo table built on
+    it) reproducible whatever the state of NumPy's global generator was before"""
+    import time
+    import warnings
+    import numpy as np
+    from optiland.tolerancing.perturbation import DistributionSampler
+    warnings.simplefilter('ignore')
+    t0 = time.time()
+    clauses, fails, cases = {}, [], 0
+    cid = 'C15.runtime.seeded_sampler_is_reproducible_for_every_seed'
+    c_ = clauses.setdefault(cid, {'paths': 0, 'proved': 0, 'backends': {}, 'failed': [], 'seconds': 0.0, 'bounded': True})
+    for sd in (0, 1, 42, 2 ** 32 - 1, np.int64(0), 7 + seed):
+        for dist, params in (('normal', {'loc': 1.0, 'scale': 0.2}), ('uniform', {'low': -1.0, 'high': 2.0})):
+            seqs = []
+            for pre in (123, 987654):
+                np.random.seed(pre)                  # whatever happened before
+                np.random.random(pre % 7 + 1)
+                s_ = DistributionSampler(dist, seed=sd, **params)
+                seqs.append([float(s_.sample()) for _ in range(4)])
+            cases += 1
+            c_['paths'] += 1
+            if seqs[0] == seqs[1]:
+                c_['proved'] += 1
+                c_['backends']['runtime'] = c_['backends'].get('runtime', 0) + 1
+            else:
+                fails.append({'clause': cid, 'draws': {'seed': int(sd), 'distribution': dist}, 'note': '%s vs %s' % (seqs[0][:2], seqs[1][:2])})
+    return {'contract': ct.name, 'functions': ct.functions, 'props': ct.props,
+            'symbolic': {'clauses': clauses, 'paths': 0, 'errors': [], 'solver_s': 0.0, 'samples': [], 'wd_assumed': [], 'assumed': []},
+            'numeric': {'accepted': cases, 'rejected': 0, 'failures': fails[:10], 'concolic_agree': 0, 'encoder_mismatches': [],
+                        'samples': [{'seeds': [0, 1, 42, 2 ** 32 - 1]}]}, 'wall_s': time.time() - t0}
+
+
+contract('C15.runtime.seeded', [TP + ':DistributionSampler.__init__', TP + ':DistributionSampler.sample'], ['C15'], custom=_seeded)(lambda c: None)
